@@ -9,7 +9,7 @@ PROP = "C16"
 TRUSTED_EXTRA = ["standard-library axioms of the classical real numbers used by trunc/C16R*.v (Reals / Coquelicot): ClassicalDedekindReals.sig_not_dec, sig_forall_dec, FunctionalExtensionality.functional_extensionality_dep, Classical_Prop.classic",
                  "seams: kernel expectations and expected link values are read from the implementation's own public calls and converted exactly"]
 WIDEN_MAX = 60          # extra thorough-generator cases when the anchored sources have drifted (harness/drift.py)
-PROPS_FILE = ["props/C16.v", "trunc/C16R.v", "trunc/C20_inst.v", "props/GI4.v"]
+PROPS_FILE = ["props/C16.v", "trunc/C16R.v", "trunc/C20_inst.v", "props/GI4.v", "props/GI7.v"]
 RULE = ("cases = {linear+RBF features, linear+squared-exponential features, heteroscedastic noise with exp / cosh-1 / step / "
         "rectified-linear link} x Dx in 1..3, Dy in 1..2, number of kernels / noise units in 1..2, Da in {Dy, Dy+1}, "
         "arbitrary rational weights, centres, length scales and NON-ZERO offsets, Gaussian p(x) with R in 1..2 (feature "
